@@ -690,9 +690,11 @@ func (s *Scheme) initializeThresholdSigning(membership *membership, parties []Pa
 }
 
 func (s *Scheme) setup() {
+	s.lock.Lock()
 	s.syncsInProgress = make(map[string]func(uint16, []byte))
 	s.rbcInProgress = make(map[string]func(m RBCMessage, from uint16))
 	s.messageClassifiers = make(map[string]func([]byte) (uint8, bool, error))
+	s.lock.Unlock()
 
 	// Initialize thread safety wrappers for sync and RBC.
 	// They're needed to ensure that each instance processes a message at a time.
